@@ -145,9 +145,25 @@ func (c RawConfiguration) handleCorrectableCall(ctx context.Context, corr *Corre
 	)
 
 	if state.data.ServerStream {
-		for _, n := range c {
-			defer n.channel.deleteRouter(state.md.MessageID)
-		}
+		defer func() {
+			// Keep draining the reply channel until all routers are removed: a
+			// receiver goroutine may be blocked delivering a further reply to this
+			// call while holding the lock that deleteRouter needs.
+			stop := make(chan struct{})
+			go func() {
+				for {
+					select {
+					case <-state.replyChan:
+					case <-stop:
+						return
+					}
+				}
+			}()
+			for _, n := range c {
+				n.channel.deleteRouter(state.md.MessageID)
+			}
+			close(stop)
+		}()
 	}
 
 	if state.expectedReplies == 0 {
